@@ -15,11 +15,12 @@ Proof. exact sample_in_range. Qed.
 
 (* a value for exactly the free parameters and never for fixed ones *)
 Theorem C19_solve_keys :
-  forall (T : Type) (is_zero : T -> bool) (lm_step : list T -> list T -> option (list T))
-         (residuals : list T -> list T),
+  forall (T : Type) (is_zero : T -> bool) (t_abs : T -> T) (t_mul t_add : T -> T -> T) (t_leb : T -> T -> bool) (t_eps t_zero : T)
+         (lm_step : list T -> list T -> option (list T))
+         (residuals : list T -> list T) (jacobian : list T -> list (list T)),
     (forall cur r next, lm_step cur r = Some next -> length next = length cur) ->
     forall fuel vars,
-      map fst (solve is_zero lm_step residuals fuel vars) = map fst (free_vars vars).
+      map fst (solve is_zero t_abs t_mul t_add t_leb t_eps t_zero lm_step residuals jacobian fuel vars) = map fst (free_vars vars).
 Proof. exact (@solve_keys). Qed.
 Print Assumptions C19_solve_keys.
 
@@ -30,10 +31,39 @@ Proof. exact (@free_vars_spec). Qed.
 
 (* already satisfied: the starting point is returned unchanged *)
 Theorem C19_satisfied_is_fixpoint :
-  forall (T : Type) (is_zero : T -> bool) (lm_step : list T -> list T -> option (list T))
-         (residuals : list T -> list T) fuel vars,
+  forall (T : Type) (is_zero : T -> bool) (t_abs : T -> T) (t_mul t_add : T -> T -> T) (t_leb : T -> T -> bool) (t_eps t_zero : T)
+         (lm_step : list T -> list T -> option (list T))
+         (residuals : list T -> list T) (jacobian : list T -> list (list T)) fuel vars,
     0 < fuel ->
     forallb is_zero (residuals (map snd (free_vars vars))) = true ->
-    solve is_zero lm_step residuals fuel vars = free_vars vars.
+    solve is_zero t_abs t_mul t_add t_leb t_eps t_zero lm_step residuals jacobian fuel vars = free_vars vars.
 Proof. exact (@solve_satisfied_is_fixpoint). Qed.
 Print Assumptions C19_satisfied_is_fixpoint.
+
+(* ... and more generally whenever the loop's exit test holds at the start (this is what the f32 instance,
+   Solver32.done32, predicts for the implementation on every generated system) *)
+Theorem C19_exit_test_at_start_is_fixpoint :
+  forall (T : Type) (is_zero : T -> bool) (t_abs : T -> T) (t_mul t_add : T -> T -> T) (t_leb : T -> T -> bool) (t_eps t_zero : T)
+         (lm_step : list T -> list T -> option (list T))
+         (residuals : list T -> list T) (jacobian : list T -> list (list T)) fuel vars,
+    0 < fuel ->
+    (let cur := map snd (free_vars vars) in
+     done_all is_zero t_abs t_mul t_add t_leb t_eps t_zero (residuals cur) (jacobian cur) cur = true) ->
+    solve is_zero t_abs t_mul t_add t_leb t_eps t_zero lm_step residuals jacobian fuel vars = free_vars vars.
+Proof. exact (@solve_done_is_fixpoint). Qed.
+Print Assumptions C19_exit_test_at_start_is_fixpoint.
+
+(* the exit test is invariant under rescaling an equation and under changing the unit of an unknown (reals) *)
+From Coq Require Import Reals.
+From FV Require Import SolverSound.
+Theorem C19_exit_test_row_scale_invariant :
+  forall (eps a r : R) (row cur : list R),
+    a <> 0%R -> (r_done eps (a * r) (map (Rmult a) row) cur <-> r_done eps r row cur).
+Proof. exact exit_test_row_scale_invariant. Qed.
+Print Assumptions C19_exit_test_row_scale_invariant.
+Theorem C19_exit_test_column_scale_invariant :
+  forall (eps r : R) (row cur cs : list R),
+    Forall (fun c => c <> 0%R) cs -> length cs = length row -> length cur = length row ->
+    (r_done eps r (rescale_row row cs) (rescale_cur cur cs) <-> r_done eps r row cur).
+Proof. exact exit_test_column_scale_invariant. Qed.
+Print Assumptions C19_exit_test_column_scale_invariant.
